@@ -22,7 +22,7 @@ import (
 
 type Options struct {
 	Workers  int           // default 8
-	Timeout  time.Duration // default 10 min
+	Timeout  time.Duration // default 30 min
 	Simulate string        // e.g. "num=500" → -simulate num=500
 	Depth    int           // -depth for simulation
 	Seed     int64         // -seed for simulation
@@ -60,7 +60,7 @@ func Run(specDir, tmp, module, cfg string, o Options) (*Result, error) {
 		o.Workers = 8
 	}
 	if o.Timeout == 0 {
-		o.Timeout = 10 * time.Minute
+		o.Timeout = 30 * time.Minute
 	}
 	n := atomic.AddInt64(&runSerial, 1)
 	work := filepath.Join(tmp, fmt.Sprintf("tlc-%d-%d", os.Getpid(), n))
